@@ -490,11 +490,17 @@ func (p *RegProcessor) processBdReq(c2sPayload *pb.C2SWrapper) (*pb.Registration
 		return nil, ErrRegProcessFailed
 	}
 
+	// Take one snapshot of the selector for the whole request. The read lock is
+	// held only for the pointer copy: acquiring it a second time while still
+	// holding it would deadlock against a concurrent ReloadSubnets, and two
+	// separate acquisitions could mix the old and the new subnet set.
+	p.selectorMutex.RLock()
+	selector := p.ipSelector
+	p.selectorMutex.RUnlock()
+
 	phantomSubnetSupportsRandPort := true
 	if c2s.GetV4Support() {
-		p.selectorMutex.RLock()
-		defer p.selectorMutex.RUnlock()
-		phantom4, err := p.ipSelector.Select(
+		phantom4, err := selector.Select(
 			cjkeys.ConjureSeed,
 			uint(c2s.GetDecoyListGeneration()), //generation type uint
 			clientLibVer,
@@ -511,9 +517,7 @@ func (p *RegProcessor) processBdReq(c2sPayload *pb.C2SWrapper) (*pb.Registration
 	}
 
 	if c2s.GetV6Support() {
-		p.selectorMutex.RLock()
-		defer p.selectorMutex.RUnlock()
-		phantom6, err := p.ipSelector.Select(
+		phantom6, err := selector.Select(
 			cjkeys.ConjureSeed,
 			uint(c2s.GetDecoyListGeneration()),
 			clientLibVer,
